@@ -70,8 +70,18 @@ def _gen_prop(pid):
             return
         rows, hextra = gen.run_harness(family, res.tier, res.seed, modes)
         ev = gen.evaluate(rows, model_ok, aspects)
-        nontriv = len(set((r["decl_sexp"], v) for r in rows if r.get("obs") for v, o in zip(r["values"], r["obs"]) if o != "nil")) if pid not in ("C19", "C15", "C16", "C17") else ev["nvalues"]
-        gen.fill_coverage(res, ev, rows, "corr-gen + corr-sem: " + rule + "; every scenario is generated by the real govalid binary built from the working tree, dumped structurally (go/parser), compiled and run; each (struct, value) is evaluated by the compiled Lean model (modeldrv) and by the Spec (specdrv); distinct by (declaration, value); non-trivial = at least one rule violated (C19/C15/C16/C17: every evaluated value)", nontriv)
+        pairs = [(r["decl_sexp"], v, o) for r in rows if r.get("obs") for v, o in zip(r["values"], r["obs"])]
+        if pid == "C19":       # the valid path is what is measured
+            nontriv = len(set((d, v) for d, v, o in pairs if o == "nil"))
+        elif pid == "C15":     # schedules in which the context turns done before the last poll
+            nontriv = ev["dist"].get("ctx:cancelled", 0)
+        elif pid in ("C16", "C17"):
+            nontriv = len(set((d, v) for d, v, o in pairs))
+        else:
+            nontriv = len(set((d, v) for d, v, o in pairs if o != "nil"))
+        gen.fill_coverage(res, ev, rows, "corr-gen + corr-sem: " + rule + "; every scenario is generated by the real govalid binary built from the working tree, dumped structurally (go/parser), compiled and run; each (struct, value) is evaluated by the compiled Lean model (modeldrv) and by the Spec (specdrv); distinct by (declaration, value); non-trivial = at least one rule violated (C19: distinct values on the valid path; C15: schedules cancelled before the last poll; C16/C17: distinct (declaration, value) pairs)", nontriv)
+        if pid == "C15":       # one evaluation per (struct, value, poll index, error kind) run through the real ValidateContext
+            res.cov["evaluations"] = ev["nvalues"] + ev["dist"].get("ctx:cancelled", 0) + ev["dist"].get("ctx:undisturbed", 0)
         res.assumptions += ["Go values modelled by Gvlean/Go/Val.lean (ints as Int, floats as IEEE bit patterns decoded exactly)",
                             "marker parameters restricted to decimal literals representable in the field type"]
         if pid == "C17":
@@ -130,7 +140,7 @@ def _c08(res):
                       "struct-level markers over nested structs, multi-name nested structs, dotted-path collisions, enum items needing escaping) followed by random packages of 1-3 structs "
                       "with 1..40 fields, 0..5 markers per field, struct-level markers, nesting to depth 3; every package is generated by the real binary, gofmt -l, go build and go vet "
                       "are run on it together with a driver that asserts `var _ govalid.Validator = (*T)(nil)`, `var _ govalid.ContextValidator = (*T)(nil)` and the types of ValidateT / "
-                      "ValidateTContext; the model's wfFile verdict is compared with the build result; distinct = (declaration, value)", ev["nvalues"])
+                      "ValidateTContext; the model's wfFile verdict is compared with the build result; distinct non-trivial = distinct declarations for which a validator file was generated and type-checked", len(set(r["decl_sexp"] for r in rows if r.get("file"))))
     res.cov["model_wf_vs_build_disagreements"] = len(wf_ties)
     res.cov["go_vet_style_notes"] = vet_notes
     res.assumptions += ["`type-checks` = go build of the package with the generated files and the assertion driver succeeds; go vet is run and its style diagnostics (e.g. `redundant and` for a duplicated enum item) are recorded but are not type errors",
@@ -139,6 +149,8 @@ def _c08(res):
     def known_match(k, aspect, item):
         r = item if isinstance(item, dict) else item[0]
         return k.get("match", {}).get("decl_sexp") == r["decl_sexp"]
+    if not cel.build_check(res):
+        return
     ev2 = dict(ev)
     ev2["struct"] = [x for x in ev["struct"] if x[0].get("builds")]   # the dump of a file that does not compile is not meaningful
     gen.report(res, ev2, broken + ([("corr-gen-wf", "Gen.wfFile and go build disagree on %d declaration(s); first %s/%s: model %s, builds=%s\n%s" % (
